@@ -224,15 +224,10 @@ func encodeJson(ctx context.Context, fp io.Writer, view *View, options option.Ex
 	e.PrettyPrint = options.PrettyPrint
 	e.FloatFormat = jsonFloatFormat(options.ScientificNotation)
 	if options.PrettyPrint && options.Color {
+		// The encoder switches the palette while it works: leave it enabled as the session has it.
 		e.Palette = palette
+		defer palette.Enable()
 	}
-	defer func() {
-		if options.Color {
-			palette.Enable()
-		} else {
-			palette.Disable()
-		}
-	}()
 
 	s, err := e.Encode(data)
 	if err != nil {
